@@ -192,7 +192,7 @@ func (e *Engine) intrinsic(st *State, f *Frame, x ssa.Value, callee *ssa.Functio
 				return dead()
 			}
 			if !c.IsTrue() {
-				e.obls = append(e.obls, Obligation{oblAssert, b.And(e.conj(st.pc), b.Not(c)), msg, e.callerPos(st, pos)})
+				e.newObl(oblAssert, st, b.Not(c), msg, e.callerPos(st, pos))
 				e.addPC(st, c)
 			}
 			e.nAsserts++
